@@ -486,3 +486,84 @@ func unwrapConv(v ssa.Value) ssa.Value {
 		}
 	}
 }
+
+// pemWrite: one place where a PEM block of a constant type is produced. When the block is assembled in a helper that
+// takes the type as a parameter, the place is the helper's call site.
+type pemWrite struct {
+	typ   string
+	fn    *ssa.Function // function in whose frame the type is a constant
+	bytes ssa.Value     // the block's Bytes in that frame (nil when not identified)
+	pos   token.Pos
+}
+
+func (c *Ctx) pemWrites() (out []pemWrite, unresolved []string) {
+	for _, fn := range c.Funcs {
+		for _, b := range fn.Blocks {
+			for _, ins := range b.Instrs {
+				st, ok := ins.(*ssa.Store)
+				if !ok {
+					continue
+				}
+				fa, ok := st.Addr.(*ssa.FieldAddr)
+				if !ok || fieldOfAddr(fa).Name() != "Type" || !typeIs(fa.X.Type().Underlying().(*types.Pointer).Elem(), "encoding/pem", "Block") {
+					continue
+				}
+				// the Bytes stored into the same block value
+				var bytesVal ssa.Value
+				if refs := fa.X.Referrers(); refs != nil {
+					for _, u := range *refs {
+						if fa2, ok := u.(*ssa.FieldAddr); ok && fieldOfAddr(fa2).Name() == "Bytes" && fa2.Referrers() != nil {
+							for _, uu := range *fa2.Referrers() {
+								if st2, ok := uu.(*ssa.Store); ok && st2.Addr == ssa.Value(fa2) {
+									bytesVal = st2.Val
+								}
+							}
+						}
+					}
+				}
+				switch v := st.Val.(type) {
+				case *ssa.Const:
+					if v.Value != nil && v.Value.Kind() == constant.String {
+						out = append(out, pemWrite{constant.StringVal(v.Value), fn, bytesVal, st.Pos()})
+						continue
+					}
+				case *ssa.Parameter:
+					ti, bi := -1, -1
+					for i, p := range fn.Params {
+						if p == v {
+							ti = i
+						}
+						if bp, ok := bytesVal.(*ssa.Parameter); ok && bp == p {
+							bi = i
+						}
+					}
+					sites := 0
+					okAll := ti >= 0
+					for _, caller := range c.Funcs {
+						for _, ci := range callsIn(caller) {
+							if ci.Common().StaticCallee() != fn || ti >= len(ci.Common().Args) {
+								continue
+							}
+							sites++
+							k, ok := ci.Common().Args[ti].(*ssa.Const)
+							if !ok || k.Value == nil || k.Value.Kind() != constant.String {
+								okAll = false
+								continue
+							}
+							var bv ssa.Value
+							if bi >= 0 && bi < len(ci.Common().Args) {
+								bv = ci.Common().Args[bi]
+							}
+							out = append(out, pemWrite{constant.StringVal(k.Value), caller, bv, ci.Pos()})
+						}
+					}
+					if okAll && sites > 0 {
+						continue
+					}
+				}
+				unresolved = append(unresolved, c.FuncKey(fn)+" at "+c.Pos(st.Pos()))
+			}
+		}
+	}
+	return out, unresolved
+}
